@@ -24,7 +24,7 @@ pub fn world() -> World {
         ],
         stub: &["chunking transport between encoder and decoder / writer", "reference SGR state machine"],
         assumptions: &[
-            "SGR semantics of the parameters the library knows: 0/empty reset; 1/21 bold on/off; 3/23 italic; 4, 4:1..4:5 underline styles, 24 underline off; 5/25 blink; 9/29 strike; 30-37, 90-97, 40-47, 100-107 named colours; 38/48/58 with ;5;n, ;2;r;g;b, :2:r:g:b and :2::r:g:b forms",
+            "SGR semantics: 0/empty reset; 1 bold on, 21 (the library's own) and 22 bold off; 39/49 default colours and 7/27 reverse video (one run in eight while the known finding about them is open); 3/23 italic; 4, 4:1..4:5 underline styles, 24 underline off; 5/25 blink; 9/29 strike; 30-37, 90-97, 40-47, 100-107 named colours; 38/48/58 with ;5;n, ;2;r;g;b, :2:r:g:b and :2::r:g:b forms",
             "palette: 16 system colours as in the library's fixed table, xterm colour cube and grey ramp",
             "reverse video and default-colour parameters (7, 27, 39, 49) are outside the property (a face-modification record can not express them)",
         ],
@@ -33,7 +33,7 @@ pub fn world() -> World {
             Tier::Quick => 900_000,
             Tier::Thorough => 30_000_000,
         },
-        features: &[],
+        features: &["sgr-default-colour-or-reverse"],
     }
 }
 
@@ -326,12 +326,13 @@ struct RefFace {
     italic: bool,
     blink: bool,
     strike: bool,
+    reverse: bool,
 }
 
 impl RefFace {
     fn to_face(self) -> Face {
         let mut attrs: FaceAttrs = self.underline.unwrap_or(UnderlineStyle::None).into();
-        for (on, flag) in [(self.bold, FaceAttrs::BOLD), (self.italic, FaceAttrs::ITALIC), (self.blink, FaceAttrs::BLINK), (self.strike, FaceAttrs::STRIKE)] {
+        for (on, flag) in [(self.bold, FaceAttrs::BOLD), (self.italic, FaceAttrs::ITALIC), (self.blink, FaceAttrs::BLINK), (self.strike, FaceAttrs::STRIKE), (self.reverse, FaceAttrs::REVERSE)] {
             if on {
                 attrs = attrs.insert(flag);
             }
@@ -341,9 +342,27 @@ impl RefFace {
 }
 
 /// one SGR parameter (possibly a multi part colour), returns text and applies to the reference
-fn gen_param(src: &mut Src, state: &mut RefFace) -> String {
-    let kind = src.draw(16);
+/// `defaults`: also the parameters that select the default colours (39, 49) and reverse video
+/// (7, 27) - what a face can hold but a face modification cannot say (known finding)
+fn gen_param(src: &mut Src, state: &mut RefFace, defaults: &mut Option<bool>) -> String {
+    let kind = if defaults.is_some() && src.chance(1, 6) { 16 + src.draw(3) } else { src.draw(16) };
     match kind {
+        16 => {
+            *defaults = Some(true);
+            state.fg = None;
+            "39".into()
+        }
+        17 => {
+            *defaults = Some(true);
+            state.bg = None;
+            "49".into()
+        }
+        18 => {
+            *defaults = Some(true);
+            let on = src.chance(1, 2);
+            state.reverse = on;
+            if on { "7".into() } else { "27".into() }
+        }
         0 => {
             *state = RefFace::default();
             (*src.pick(&["0", "", "00"])).to_string()
@@ -354,7 +373,8 @@ fn gen_param(src: &mut Src, state: &mut RefFace) -> String {
         }
         2 => {
             state.bold = false;
-            "21".into()
+            // (21 is what the library writes; 22 is "normal intensity" everywhere)
+            (*src.pick(&["21", "22"])).to_string()
         }
         3 => {
             let on = src.chance(1, 2);
@@ -449,6 +469,7 @@ fn run_semantics(ctx: &Ctx, src: &mut Src) -> WorldResult {
     let mut expected: Vec<(char, Face)> = Vec::new();
     let mut sequences: Vec<(usize, usize)> = Vec::new();
     let mut shape = Vec::new();
+    let mut defaults: Option<bool> = if ctx.avoids("sgr-default-colour-or-reverse") { None } else { Some(false) };
     for _ in 0..n {
         if src.chance(2, 3) {
             let params = 1 + src.draw(4);
@@ -456,7 +477,7 @@ fn run_semantics(ctx: &Ctx, src: &mut Src) -> WorldResult {
             stream.extend_from_slice(b"\x1b[");
             let mut texts = Vec::new();
             for _ in 0..params {
-                texts.push(gen_param(src, &mut state));
+                texts.push(gen_param(src, &mut state, &mut defaults));
             }
             // an empty parameter list means reset; a single empty parameter is written as nothing
             let joined = texts.join(";");
@@ -535,10 +556,14 @@ fn run_semantics(ctx: &Ctx, src: &mut Src) -> WorldResult {
                             fields.push(name);
                         }
                     }
+                    if gf.attrs.contains(FaceAttrs::REVERSE) != ef.attrs.contains(FaceAttrs::REVERSE) {
+                        fields.push("reverse");
+                    }
                     format!("cell-face:{}", fields.join(","))
                 }
                 _ => "cell-sequence".to_string(),
             };
+            let signature = if defaults == Some(true) { format!("{signature}+sgr-default-colour-or-reverse") } else { signature };
             return Err(Violation::new(
                 P,
                 "C06.sgr-semantics",
